@@ -325,6 +325,7 @@ type vsdRun struct {
 	stopCh chan struct{}
 	info   map[string]string
 	quitRs chan struct{}
+	stream *os.File // every step is appended here at once (survives a crash of the process)
 }
 
 func (r *vsdRun) log(a vsdAct, err error, dump string) {
@@ -367,6 +368,11 @@ func (r *vsdRun) log(a vsdAct, err error, dump string) {
 		s.Err = err.Error()
 	}
 	r.steps = append(r.steps, s)
+	if r.stream != nil {
+		if j, e := json.Marshal(s); e == nil {
+			r.stream.Write(append(j, '\n'))
+		}
+	}
 }
 
 func (r *vsdRun) ret(k int, err error, nilValue bool) {
@@ -581,6 +587,11 @@ func vsdRunOne(p vsdPathIn, scratch string) (out vsdPathOut, rerr error) {
 	}
 	r := &vsdRun{t0: time.Now(), rng: rand.New(rand.NewSource(seed*7919 + int64(p.ID))),
 		done: map[int]chan struct{}{}, stopCh: make(chan struct{}), info: map[string]string{}}
+	if sf := os.Getenv("VSD_ONE_STREAM"); sf != "" {
+		if f, err := os.OpenFile(sf, os.O_CREATE|os.O_WRONLY|os.O_APPEND, 0o644); err == nil {
+			r.stream = f
+		}
+	}
 	pool := p.InitObs.Pool
 	r.obs = vsdObs{Pool: pool, Dial: p.InitObs.Dial, Stop: vsdSNot, Calls: []vsdCall{}, Reopen: vsdRNot}
 	out.InitObs = r.obs
@@ -947,6 +958,8 @@ func vsdParent(p vsdPathIn, raw []byte, scratch string, idx int, boundS int) (ou
 	}
 	pf := filepath.Join(scratch, fmt.Sprintf("sd-one-%d.json", idx))
 	of := filepath.Join(scratch, fmt.Sprintf("sd-one-%d.out", idx))
+	sf := filepath.Join(scratch, fmt.Sprintf("sd-one-%d.steps", idx))
+	defer os.Remove(sf)
 	if err := os.WriteFile(pf, raw, 0o644); err != nil {
 		out.Error = err.Error()
 		return
@@ -956,7 +969,7 @@ func vsdParent(p vsdPathIn, raw []byte, scratch string, idx int, boundS int) (ou
 	limit := time.Duration(2*boundS+120) * time.Second
 	cmd := exec.Command(os.Args[0], "-test.run", "^TestVerifShutdownOne$", "-test.count=1",
 		"-test.timeout", fmt.Sprintf("%ds", 2*boundS+110))
-	cmd.Env = append(os.Environ(), "VSD_ONE_PATH="+pf, "VSD_ONE_OUT="+of, "VERIF_SCRATCH="+scratch,
+	cmd.Env = append(os.Environ(), "VSD_ONE_PATH="+pf, "VSD_ONE_OUT="+of, "VSD_ONE_STREAM="+sf, "VERIF_SCRATCH="+scratch,
 		fmt.Sprintf("VSD_BOUND_S=%d", boundS))
 	var stderr bytes.Buffer
 	cmd.Stdout = &stderr
@@ -995,26 +1008,36 @@ func vsdParent(p vsdPathIn, raw []byte, scratch string, idx int, boundS int) (ou
 		if j < 0 {
 			j = strings.Index(se, "fatal error: ")
 		}
+		// what the child had recorded before it died
 		obs := p.InitObs
-		for _, s := range p.Steps {
-			if s.Act.Op == "Begin" {
-				st := vsdCHung
-				if s.Act.K == vsdKSync {
-					st = vsdCNone
+		if obs.Calls == nil {
+			obs.Calls = []vsdCall{}
+		}
+		if b, err := os.ReadFile(sf); err == nil {
+			for _, line := range bytes.Split(b, []byte("\n")) {
+				var st vsdStepOut
+				if len(line) > 0 && json.Unmarshal(line, &st) == nil && st.Act.Op != "" {
+					out.Steps = append(out.Steps, st)
+					obs = st.Obs
 				}
-				obs.Calls = append(obs.Calls, vsdCall{K: s.Act.K, M: s.Act.M, St: st})
-				out.Steps = append(out.Steps, vsdStepOut{Act: vsdAct{Op: "Begin", K: s.Act.K, M: s.Act.M, Res: "ok"},
-					Obs: vsdObs{Pool: obs.Pool, Dial: obs.Dial, Stop: obs.Stop, Calls: append(make([]vsdCall, 0, 4), obs.Calls...)}})
-			}
-			if s.Act.Op == "Stop" {
-				obs.Stop = vsdSRun
-				out.Steps = append(out.Steps, vsdStepOut{Act: vsdAct{Op: "Stop", M: s.Act.M, Res: "ok"},
-					Obs: vsdObs{Pool: obs.Pool, Dial: obs.Dial, Stop: obs.Stop, Calls: append(make([]vsdCall, 0, 4), obs.Calls...)}})
 			}
 		}
-		obs.Stop = vsdSHung
-		out.Steps = append(out.Steps, vsdStepOut{Act: vsdAct{Op: "Hang", Res: "panic"},
-			Obs: vsdObs{Pool: obs.Pool, Dial: obs.Dial, Stop: obs.Stop, Calls: append(make([]vsdCall, 0, 4), obs.Calls...)},
+		stopped := obs.Stop != vsdSNot
+		if obs.Stop == vsdSRun {
+			obs.Stop = vsdSHung
+		}
+		calls := append(make([]vsdCall, 0, 4), obs.Calls...)
+		for i := range calls {
+			if calls[i].St == vsdCPending {
+				calls[i].St = vsdCHung
+			}
+		}
+		obs.Calls = calls
+		res := "panic"
+		if !stopped {
+			res = "panic-before-stop"
+		}
+		out.Steps = append(out.Steps, vsdStepOut{Act: vsdAct{Op: "Hang", Res: res}, Obs: obs,
 			Dump: vsdTail(se[j:], 20000)})
 		return
 	}
